@@ -73,15 +73,32 @@ func TestCheck(t *testing.T) {
 		res.Write()
 		return
 	}
+	runCold(res, tierConfs(), "", 0)
 	for _, sp := range sps {
 		opseq.Run(sp, res, vk.Deadline())
 	}
 	res.Write()
 }
 
+func tierConfs() []Conf {
+	var out []Conf
+	for _, c := range Confs() {
+		if vk.Thorough() || c.Quick {
+			out = append(out, c)
+		}
+	}
+	return out
+}
+
 func replay(res *vk.Result, sps []*opseq.Space, rp map[string]any) {
 	r, _ := rp["replay"].(map[string]any)
 	name, _ := r["space"].(string)
+	if name == "client-cold-stat" {
+		conf, _ := r["conf"].(string)
+		n, _ := r["n"].(float64)
+		runCold(res, Confs(), conf, int(n))
+		return
+	}
 	var ops []string
 	if l, ok := r["ops"].([]any); ok {
 		for _, o := range l {
